@@ -283,14 +283,34 @@ def r_atan2_corners(rule, root=None):
     the two corners each case of Interval::atan2 evaluates must be those."""
     fn = A.find_fn(IV, "atan2", self_ty="Interval", root=root)
     v = A.value_view(fn)
-    ups = [c for c in A.find(v["body"], "Call") if A.path_segs(c["func"]) == ["update"] and len(c["args"]) == 2]
+    # a corner evaluation: `update(y.bound, x.bound)` in a case, or the pair `(y.bound, x.bound)` a case yields for a
+    # common `update` after the ladder
+    xs_ = [A.binding_name(i_["pat"]) for i_ in fn["sig"]["inputs"] if isinstance(i_, dict) and "pat" in i_]
+    xn = xs_[0] if xs_ else "x"
+    yb = re.compile(r"^(?:y|self)\.(?:lower|upper)(?:\(\))?$")
+    xb = re.compile(r"^%s\.(?:lower|upper)(?:\(\))?$" % re.escape(xn))
+
+    def _corner(n_):
+        if n_.get("k") == "Call" and len(n_.get("args", [])) == 2 and len(A.path_segs(n_["func"]) or []) == 1:
+            el = n_["args"]
+        elif n_.get("k") == "Tuple" and len(n_.get("elems", [])) == 2:
+            el = n_["elems"]
+        else:
+            return None
+        a_, b_ = (A.unparse(A.strip(e_)).replace(" ", "") for e_ in el)
+        return el if yb.match(a_) and xb.match(b_) else None
+
+    ups = []
+    for n_ in A.walk(v["body"]):
+        if isinstance(n_, dict) and _corner(n_) is not None:
+            ups.append({"k": n_["k"], "args": _corner(n_), "ln": n_.get("ln", fn["ln"]), "_node": n_})
     if len(ups) < 8:
-        rule.lost("the corner updates of Interval::atan2 (found %d)" % len(ups))
+        rule.lost("the corner evaluations of Interval::atan2 (found %d)" % len(ups))
         return
     # which parameter is y (the receiver) and which is x
     leaves = {}
     for c in ups:
-        conds = A.enclosing_conds(v["body"], c) or []
+        conds = A.enclosing_conds(v["body"], c["_node"]) or []
         yc, xc = _sign_class(conds, "y"), _sign_class(conds, "x")
         if yc is None:
             yc = _sign_class(conds, "self")
